@@ -218,6 +218,8 @@ func (check typecheck) shift(n *node) error {
 		}
 	case isInt(t1):
 		// nothing to do
+	case c0.rval.IsValid() && c1.rval.IsValid() && isFloat(t1) && vFloat(c1.rval) >= 0 && vFloat(c1.rval) == math.Trunc(vFloat(c1.rval)):
+		// The count of a constant shift must have an integer value, of any numeric type.
 	default:
 		return n.cfgErrorf("invalid operation: shift count type %v, must be integer", c1.typ.id())
 	}
